@@ -50,6 +50,10 @@ type DB struct {
 	// Fault, if set, is consulted before put/delete/flush; a non-nil error is
 	// returned to the caller and the operation has no effect.
 	Fault func(op string) error
+	// FaultAt, if set, is consulted as well, with the bucket a put / delete
+	// goes to ("" for flush): faults that do not depend on the order in which
+	// the caller writes.
+	FaultAt func(op, bucket string) error
 
 	Flushes, Puts, Dels, Cancels int
 }
@@ -189,6 +193,11 @@ func (b *bucket) Put(key, value []byte) error {
 			return err
 		}
 	}
+	if b.db.FaultAt != nil {
+		if err := b.db.FaultAt("put", b.name); err != nil {
+			return err
+		}
+	}
 	b.db.Puts++
 	o := b.db.ov(b.name)
 	o.puts[string(key)] = append([]byte(nil), value...)
@@ -202,6 +211,11 @@ func (b *bucket) Delete(key []byte) error {
 	}
 	if b.db.Fault != nil {
 		if err := b.db.Fault("delete"); err != nil {
+			return err
+		}
+	}
+	if b.db.FaultAt != nil {
+		if err := b.db.FaultAt("delete", b.name); err != nil {
 			return err
 		}
 	}
